@@ -4,6 +4,7 @@ import (
 	"time"
 
 	"github.com/karagenc/socket.io-go/internal/sync"
+	"github.com/karagenc/socket.io-go/internal/vhook"
 
 	eio "github.com/karagenc/socket.io-go/engine.io"
 	eioparser "github.com/karagenc/socket.io-go/engine.io/parser"
@@ -34,13 +35,16 @@ func (pq *packetQueue) poll() (packets []*eioparser.Packet, ok, closed bool) {
 		ok = true
 		return
 	}
+	vhook.Yield("pq.poll.beforeWait", pq)
 
 	select {
 	// _close takes precedence.
 	// Otherwise we would go with the already-invoked `pq.ready` channel.
 	case <-pq._close:
+		vhook.Event("pq.wake", "o", pq, "via", "close")
 		return nil, false, true
 	case <-pq.ready:
+		vhook.Event("pq.wake", "o", pq, "via", "ready")
 		packets = pq.get()
 		if len(packets) != 0 {
 			ok = true
@@ -59,6 +63,7 @@ func (pq *packetQueue) get() (packets []*eioparser.Packet) {
 	defer pq.mu.Unlock()
 	packets = pq.packets
 	pq.packets = nil
+	vhook.Event("pq.get", "o", pq, "pk", packets)
 	return
 }
 
@@ -70,7 +75,9 @@ func (pq *packetQueue) add(packets ...*eioparser.Packet) {
 	} else {
 		pq.packets = append(pq.packets, packets...)
 	}
+	vhook.Event("pq.add", "o", pq, "pk", packets, "len", len(pq.packets))
 	pq.mu.Unlock()
+	vhook.Yield("pq.add.beforeSignal", pq)
 
 	select {
 	case pq.ready <- struct{}{}:
@@ -86,6 +93,7 @@ func (pq *packetQueue) reset() {
 	case pq._reset <- struct{}{}:
 	default:
 	}
+	vhook.Event("pq.reset", "o", pq)
 }
 
 func (pq *packetQueue) close() {
@@ -96,6 +104,7 @@ func (pq *packetQueue) close() {
 	case pq._close <- struct{}{}:
 	default:
 	}
+	vhook.Event("pq.close", "o", pq)
 }
 
 func (pq *packetQueue) waitForDrain(timeout time.Duration) (timedout bool) {
@@ -119,11 +128,13 @@ func (pq *packetQueue) pollAndSend(socket eio.Socket) {
 	for {
 		packets, ok, closed := pq.poll()
 		if closed {
+			vhook.Event("pq.exit", "o", pq)
 			return
 		}
 		if !ok {
 			continue
 		}
+		vhook.Event("pq.send", "o", pq, "pk", packets)
 		socket.Send(packets...)
 	}
 }
